@@ -2,13 +2,14 @@
 From Coq Require Import String.
 From Coq Require Import List Bool Arith NArith.
 Import ListNotations.
-Require Import Str DriverIp.
+Require Import Str DriverIp DriverJun.
 Local Open Scope N_scope.
 
 Definition run_case (fields : list str) : str :=
   match fields with
   | cmd :: _ =>
       if mem_str cmd [lit "base"; lit "ip4"; lit "ip6"] then run_ip fields
+      else if mem_str cmd [lit "jenc"; lit "jdec"] then run_jun fields
       else lit "BADCMD"
   | [] => lit "BADCMD"
   end.
